@@ -126,10 +126,12 @@ def main():
     a = sys.argv[1:]
     pid = a[0].upper()
     also, ks, detect_only = [], [], False
+    recheck = False
     i = 1
     while i < len(a):
         if a[i] == "--also": also = a[i + 1].split(","); i += 2
         elif a[i] == "--detect-only": detect_only = True; i += 1
+        elif a[i] == "--recheck": detect_only = True; recheck = True; i += 1
         else: ks.append(a[i]); i += 1
     base = "/tmp/seed/%s/out" % pid
     if not ks:
@@ -144,7 +146,13 @@ def main():
         if detect_only:
             old = json.load(open("/verif/seeded/%s-%s/meta.json" % (pid, k)))
             v = old.get("confirmed_by_orchestrator", {})
-            det = dict(old.get("detection", {}), **detect(pid, k, d, also, log))
+            if recheck:
+                det = old.get("detection", {})
+                old["detection_after_strengthening"] = detect(pid, k, d, [pid], log)
+                old["strengthened_at_verif_commit"] = subprocess.run(["git", "-C", "/verif", "rev-parse", "--short", "HEAD"], capture_output=True, text=True).stdout.strip()
+                meta.update({k2: old[k2] for k2 in ("detection_after_strengthening", "strengthened_at_verif_commit")})
+            else:
+                det = dict(old.get("detection", {}), **detect(pid, k, d, also, log))
         else:
             v = validate(pid, k, d, log)
             det = detect(pid, k, d, [pid] + also, log)
@@ -160,7 +168,8 @@ def main():
         print("%s-%s: demo without=%s with=%s | tests=%s | %s" % (
             pid, k, v.get("demo_without_change"), v.get("demo_with_change"),
             {c: (t["summary"], t["failed_after_retry"]) for c, t in v.get("existing_tests", {}).items()},
-            {c: r.get("verdict") for c, r in det.items()} if "error" not in det else det))
+            ({c: r.get("verdict") for c, r in det.items()} if "error" not in det else det),
+            ) + (" | after strengthening: %s" % {c: r.get("verdict") for c, r in meta.get("detection_after_strengthening", {}).items()} if meta.get("detection_after_strengthening") else ""))
         sys.stdout.flush()
     # free the scratch pair of this property (disk is limited)
     ws = "/tmp/det/%s" % pid
